@@ -158,6 +158,16 @@ with seek (f : nat) (t : Z) (i : it) : option (it * bool) :=
           (* (fix) a sample past maxt is not valid *)
           Some (Leaf true l2, match l2 with [] => false | y :: _ => fst y <=? maxt end)
     | Node a b av bv lastT la pa pb ua =>
+        (* Seek before the first Next: go through Next once, so that time never
+           goes backwards (lastT is MinInt64 only before the first valid Next,
+           timestamps being above MinInt64) *)
+        if lastT =? MinT then
+          match next f' i with
+          | None => None
+          | Some (i', false) => Some (i', false)
+          | Some (i', true) => seek f' t i'
+          end
+        else
         let ts := atT i in
         if t <=? ts then
           if ua then
